@@ -10379,7 +10379,7 @@ func NewLsTLVOpaquePrefixAttr(l *[]byte) *LsTLVOpaquePrefixAttr {
 	return &LsTLVOpaquePrefixAttr{
 		LsTLV: LsTLV{
 			Type:   LS_TLV_OPAQUE_PREFIX_ATTR,
-			Length: 0,
+			Length: uint16(len(*l)),
 		},
 		Attr: *l,
 	}
